@@ -86,7 +86,11 @@ fn canon_runs(p: &Plan, tag: &str, code: &[u8], w: Width) -> Vec<(Vec<u8>, Canon
     let runs: Vec<(Vec<u8>, Canon)> = if tag == "W" {
         spaces::W_SCRIPTS.iter().map(|s| (s.to_vec(), refbf::run(code, w, s, p.step_cap * 4, false))).collect()
     } else if tag == "M" {
-        vec![(Vec::new(), refbf::run(code, w, &[], p.m_step_cap, false))]
+        if code.contains(&b',') {
+            spaces::W_SCRIPTS.iter().map(|s| (s.to_vec(), refbf::run(code, w, s, p.m_step_cap, false))).collect()
+        } else {
+            vec![(Vec::new(), refbf::run(code, w, &[], p.m_step_cap, false))]
+        }
     } else {
         diff::explore_env(code, w, p.depth, p.step_cap, false)
     };
@@ -212,7 +216,11 @@ pub fn c10_program(ctx: &mut WorkerCtx, p: &Plan, idx: u64, tag: &str, code: &[u
 fn c10_program_inner(ctx: &mut WorkerCtx, p: &Plan, idx: u64, tag: &str, code: &[u8]) {
     let text = std::str::from_utf8(code).unwrap();
     ctx.count("programs", 1);
-    for &w in &p.widths {
+    let mut widths = p.widths.clone();
+    if tag == "M" && !widths.contains(&Width::W16) {
+        widths.push(Width::W16);
+    }
+    for &w in &widths {
         let runs = canon_runs(p, tag, code, w);
         ctx.count("env_nodes", runs.len() as u64);
         if runs.is_empty() {
@@ -431,17 +439,17 @@ pub fn c17_worker(ctx: &mut WorkerCtx) {
 
 pub fn replay_program(ctx: &mut WorkerCtx, prop: &str, code: &[u8]) {
     let p = plan(ctx.tier);
-    let tag = if code.starts_with(b"++>>,>") || code.starts_with(b"+>>,>") {
-        "W"
-    } else if code.len() > 40 {
-        "M"
-    } else {
-        "A"
-    };
-    match prop {
-        "C06" => c06_program(ctx, &p, 0, tag, code),
-        "C10" => c10_program(ctx, &p, 0, tag, code),
-        _ => c17_program(ctx, code, 64),
+    // the recorded program may come from any space: re-judge it under every script policy
+    let tags: &[&str] = if code.starts_with(b"++>>,>") || code.starts_with(b"+>>,>") { &["W"] } else { &["A", "M"] };
+    for tag in tags {
+        match prop {
+            "C06" => c06_program(ctx, &p, 0, tag, code),
+            "C10" => c10_program(ctx, &p, 0, tag, code),
+            _ => {
+                c17_program(ctx, code, 64);
+                break;
+            }
+        }
     }
 }
 
@@ -490,12 +498,12 @@ pub fn info(prop: &'static str, tier: Tier) -> CheckInfo {
             level: "fault_enumeration",
             rule: "For each grower program (dynamic walks right and left, scans, static far offsets in both directions, an echo loop, four corpus \
                    programs) x backend x (width, level) in {(8,2),(64,2),(16,0)} x entry point {execute, execute_limited}: the fault-free run \
-                   counts the allocation requests made during execution (N); then for every k = 1..min(N, K) one run in its own process in \
+                   counts the alloc_zeroed / realloc requests made during execution (N); then for every k = 1..min(N, K) one run in its own process in \
                    which exactly the k-th request returns null, under the guard-page allocator. Oracle: the process ends by SIGABRT \
                    (handle_alloc_error) or by a panic; SIGSEGV/SIGBUS or a normal return is a violation. distinct = distinct \
                    (program, backend, width, entry, k)."
                 .into(),
-            assumptions: vec!["every allocation request made while executing is a candidate, not only the tape's: requests made by Vec fail through handle_alloc_error and are clean by construction".into()],
+            assumptions: vec!["candidates are the alloc_zeroed requests (tape growth, interpreter context) and the realloc requests (in-place growth; Vec growth, which fails cleanly through handle_alloc_error) made while executing".into()],
             bounds: J::obj().set("max_k", if tier == Tier::Quick { 12 } else { 64 }),
             exhaustive: true,
             hang_secs: 120,
